@@ -25,7 +25,10 @@ Cfg == IF Scope = "quick" THEN {c \in CfgAll : c.header # "X-Real-Ip" /\ (~c.tru
 
 \* header assignments: what the client put into the forwarding headers
 XFF == {"absent", "one", "list", "garbage", "garbage-then-ip"}
-SchemeHdr == {"absent", "X-Forwarded-Proto", "X-Forwarded-Protocol", "X-Forwarded-Ssl", "X-Url-Scheme"}
+\* (the last two carry a value other than "https": "X-Forwarded-Proto: ftp" and "X-Url-Scheme: HTTPS" -- a trusted proxy's value is
+\* handed on as it is, an untrusted peer's value changes nothing)
+SchemeHdr == {"absent", "X-Forwarded-Proto", "X-Forwarded-Protocol", "X-Forwarded-Ssl", "X-Url-Scheme", "X-Forwarded-Proto=ftp", "X-Url-Scheme=HTTPS"}
+SchemeValue(hs) == CASE hs = "X-Forwarded-Proto=ftp" -> "ftp" [] hs = "X-Url-Scheme=HTTPS" -> "HTTPS" [] OTHER -> "https"
 Hdrs == [xff : XFF, xfhost : BOOLEAN, scheme : SchemeHdr]
 NoHdrs == [xff |-> "absent", xfhost |-> FALSE, scheme |-> "absent"]
 
@@ -41,9 +44,10 @@ FwdIP(c, h) == CASE h.xff = "absent" -> (IF c.validate THEN "remote" ELSE "empty
                  [] h.xff = "list" -> (IF c.validate THEN "198.51.100.7" ELSE "raw-list")
                  [] h.xff = "garbage" -> (IF c.validate THEN "remote" ELSE "raw-garbage")
                  [] h.xff = "garbage-then-ip" -> (IF c.validate THEN "198.51.100.8" ELSE "raw-garbage-then-ip")
+\* (Out has no argument for other applications of the process: see the sibling application in the harness)
 Out(c, p, t, h) ==
   LET tr == Trusted(c, p)
-      scheme == IF t THEN "https" ELSE IF tr /\ h.scheme # "absent" THEN "https" ELSE "http"
+      scheme == IF t THEN "https" ELSE IF tr /\ h.scheme # "absent" THEN SchemeValue(h.scheme) ELSE "http"
       host == IF tr /\ h.xfhost THEN "spoof.example" ELSE "real.example"
   IN [ ip |-> IF tr /\ c.header # "" THEN FwdIP(c, h) ELSE "remote",
        host |-> host, scheme |-> scheme, secure |-> (scheme = "https"), trusted |-> tr ]
